@@ -584,6 +584,65 @@ theorem fault_wrong_base_serial (o : Name) (cur : Soa) (steps : List Step) (z0 :
         ⟨z0, false⟩ z0) [] = .ok _ := rfl
     exact raise_at rfl hf hB rfl (mid_soa_mismatch (fun h => hb1 h.symm)) hc
 
+/-! ## `dns.query.inbound_xfr`: UDP first, TCP retry -/
+
+/-- the query `inbound_xfr` makes for a zone that holds version `v` announces `v`'s serial in an IXFR -/
+theorem query_of_zone (o : Name) (v : Version) (z0 : Zone) (hz : z0 ≃z zoneOf o v) (hb : BodyOk o v.body) :
+    queryOf (some o) z0 none = .ok (ixfrType, some v.soa.rdata.serial) := by
+  simp [queryOf, makeQuery, serial_of_equiv hz hb]
+
+/-- a supplied IXFR query runs with the serial of the SOA in its authority section -/
+theorem query_of_supplied (origin : Option Name) (z0 : Zone) (s : Nat) :
+    queryOf origin z0 (some (ixfrType, some s)) = .ok (ixfrType, some s) := by
+  simp [queryOf, extractSerial, ixfrType, axfrType]
+
+/-- **UseTCP from UDP leads to a TCP retry with the same query, and the zone converges.**  The server
+answers the IXFR over UDP with the lone newer SOA; with `udp_mode = TRY_FIRST` the transfer is run again
+over TCP with the same type and serial (the one the zone announces when no query was supplied, the one in
+the query otherwise), on the untouched zone, and ends in the server's version — for every chain of versions
+and every division of the TCP response into messages.  With `ONLY`, `UseTCP` is raised and the zone is as
+it was. -/
+theorem usetcp_retry_converges (o : Name) (v0 : Version) (vs : List Version) (z0 : Zone) (m : Msg) (more tcp : List Msg)
+    (query : Option (Nat × Option Nat)) (hq : query = none ∨ query = some (ixfrType, some v0.soa.rdata.serial))
+    (hne : vs ≠ []) (hz0 : z0 ≃z zoneOf o v0) (hv0 : WfVersion o v0) (hvs : ∀ v ∈ vs, WfVersion o v)
+    (hdist : ∀ v ∈ (v0 :: vs).dropLast, v.soa.rdata ≠ (lastVersion v0 vs).soa.rdata)
+    (hs1 : (lastVersion v0 vs).soa.rdata.serial ≠ v0.soa.rdata.serial)
+    (hs2 : serialLt (lastVersion v0 vs).soa.rdata.serial v0.soa.rdata.serial = false)
+    (hh : headerErrOf o ixfrType m = none) (ha : m.answer = [soaRR o (lastVersion v0 vs).soa])
+    (hc : Chunks ⟨some o, ixfrType, some v0.soa.rdata.serial, false⟩ (ixfrStream o v0.soa (diffSteps v0 vs)) tcp) :
+    inboundXfr true (some o) query .only z0 (m :: more) tcp = ⟨some .UseTCP, z0⟩ ∧
+    inboundXfr true (some o) query .tryFirst z0 (m :: more) tcp =
+      run true ⟨some o, ixfrType, some v0.soa.rdata.serial, false⟩ z0 tcp ∧
+    (inboundXfr true (some o) query .tryFirst z0 (m :: more) tcp).err = none ∧
+    (inboundXfr true (some o) query .tryFirst z0 (m :: more) tcp).zone ≃z zoneOf o (lastVersion v0 vs) := by
+  have hqo : queryOf (some o) z0 query = .ok (ixfrType, some v0.soa.rdata.serial) := by
+    rcases hq with h | h
+    · rw [h]; exact query_of_zone o v0 z0 hz0 hv0.body
+    · rw [h]; exact query_of_supplied (some o) z0 _
+  have hudp := fault_use_tcp o z0 (lastVersion v0 vs).soa v0.soa.rdata.serial m more hh ha hs1 hs2
+  have htcp := ixfr_converges o v0 vs z0 tcp hne hz0 hv0 hvs hdist hs1 hs2 hc
+  have h1 : inboundXfr true (some o) query .only z0 (m :: more) tcp = ⟨some .UseTCP, z0⟩ := by
+    simp [inboundXfr, hqo, hudp]
+  have h2 : inboundXfr true (some o) query .tryFirst z0 (m :: more) tcp =
+      run true ⟨some o, ixfrType, some v0.soa.rdata.serial, false⟩ z0 tcp := by
+    simp [inboundXfr, hqo, hudp]
+  exact ⟨h1, h2, by rw [h2]; exact htcp.1, by rw [h2]; exact htcp.2.1⟩
+
+/-- a UDP attempt that completes, or fails with anything but `UseTCP`, is final: TCP is not tried -/
+theorem udp_outcome_final (origin : Option Name) (query : Option (Nat × Option Nat)) (mode : UdpMode) (z0 : Zone)
+    (udp tcp : List Msg) (s : Option Nat) (hq : queryOf origin z0 query = .ok (ixfrType, s)) (hm : mode ≠ .never)
+    (hne : (run true ⟨origin, ixfrType, s, true⟩ z0 udp).err ≠ some .UseTCP) :
+    inboundXfr true origin query mode z0 udp tcp = run true ⟨origin, ixfrType, s, true⟩ z0 udp := by
+  unfold inboundXfr
+  rw [hq]
+  simp only [true_and, hm, ne_eq, not_false_eq_true, if_true]
+  cases hr : run true ⟨origin, ixfrType, s, true⟩ z0 udp with
+  | mk err zone =>
+    rw [hr] at hne
+    cases err with
+    | none => rfl
+    | some e => cases e <;> simp_all
+
 /-! ## RFC 1982 comparison and the query helpers -/
 
 /-- `Serial(a) < b` is irreflexive and asymmetric (RFC 1982 §3.2), so "went backwards" and "is ahead"
